@@ -71,6 +71,8 @@ def oracle(case, line):
     acct = {}     # list -> [budget, payload] while the root is limited
     starve = {}   # slave list with rate 0 under a limited root -> consecutive ticks with a node kept inactive
     flagged = set()
+    maxg = {}     # largest tick grant since the root limit was set
+    ers = {}      # erases per list since the last tick (erase returns a node's quota to the pool)
     for i, part in enumerate(parts):
         if part.startswith("ERR:internal"):
             tag = part.split(":")[-1]
@@ -146,6 +148,11 @@ def oracle(case, line):
                         if held(L) > held(P) + min(lim, grant):
                             bad.append(("tick-overgrant", "list %d got more than elapsed*rate (%d > %d + %d) %s" % (
                                 li, held(L), held(P), min(lim, grant), where)))
+                        # carry-over cap (update_quota_reactivation: unalloc' <= q = uu'): a list reached by the tick has
+                        # ua <= uu, a list not reached keeps its ua
+                        if L["e"] and L["ua"] > max(L["uu"], P["ua"]):
+                            bad.append(("carry-over-cap", "list %d keeps %d unallocated after a tick whose grant was %d (before: ua=%d uu=%d): "
+                                        "unused quota is carried over beyond one tick %s" % (li, L["ua"], L["uu"], P["ua"], P["uu"], where)))
                         # reactivation: an update leaves either no inactive node or no unallocated quota
                         if L["e"] and L["uu"] != P["uu"] and L["I"] and L["ua"] > 0:
                             bad.append(("not-reactivated", "list %d was updated, has unallocated quota but kept nodes inactive %s" % (li, where)))
@@ -180,6 +187,27 @@ def oracle(case, line):
                                         "its deactivated node got no quota over %d ticks %s" % (li, starve[li], where)))
                     else:
                         starve.pop(li, None)
+            # fixed burst: whatever a list holds is bounded independently of how long it has been idle
+            if k == "T" and root_on:
+                maxg["g"] = max(maxg.get("g", 0), (st["now"] - prev["lt"]) * prev["rate"] // 10**6)
+                for li, L in enumerate(st["lists"]):      # a list reached by the tick is clamped: ua <= uu
+                    if L["ua"] <= L["uu"]:
+                        ers.pop(li, None)
+            elif k == "R" and int(op[1]) == 0 and not root_on and st["lists"][0]["e"]:
+                maxg["g"] = st["rate"]
+                ers.clear()
+            elif k == "R" and int(op[1]) == 0 and not st["lists"][0]["e"]:
+                maxg.pop("g", None)
+            if k == "E" and int(op[1]) < len(prev["lists"]):
+                ers[int(op[1])] = ers.get(int(op[1]), 0) + 1
+            if st["lists"][0]["e"] and "g" in maxg:
+                for li, L in enumerate(st["lists"]):
+                    fixed = 65536 * (len(L["A"]) + len(L["I"]) + ers.get(li, 0)) + 2 * maxg["g"]
+                    if held(L) > fixed and "burst" not in flagged:
+                        flagged.add("burst")
+                        bad.append(("burst-unbounded", "list %d holds %d bytes of quota, more than the fixed burst allowance %d "
+                                    "(65536 per node + two ticks of the largest grant %d): the burst grows with idle time %s" % (
+                                        li, held(L), fixed, maxg["g"], where)))
             if k == "X" and out.startswith("x=") and int(op[1]) < len(prev["lists"]):
                 li, n = int(op[1]), int(out[2:])
                 L = st["lists"][li]
